@@ -473,6 +473,17 @@ fn apply_tamper(m: &Machine, w: &mut Wire, ci: usize, f: &str, v: &str, hist: &[
             }
             fields = m.serialize_struct(&s).map_err(|e| format!("serialize_struct: {e}"))?;
         }
+        ("payload", "noncanonical") => {
+            // over-long varint: the first byte b < 0x80 (an int field or a length prefix) becomes
+            // [b | 0x80, 0x00], which decodes to the same value
+            match fields.first().copied() {
+                Some(b0) if b0 < 0x80 => {
+                    fields[0] = b0 | 0x80;
+                    fields.insert(1, 0x00);
+                }
+                _ => fields.push(0x00),
+            }
+        }
         ("payload", "malformed") => {
             fields.truncate(fields.len().saturating_sub(3));
         }
